@@ -422,7 +422,7 @@ def run(ctx):
     else:
         # ---- findall family
         rng = ctx.sub_rng("findall")
-        for _ in range(ctx.budget(450, 3000)):
+        for _ in range(ctx.budget(450, 10000)):
             prog, q = U.gen_findall_program(rng)
             handle("findall", prog, q)
         # the pinned witness of the ClauseIndex defect (DESIGN §9)
@@ -436,7 +436,7 @@ def run(ctx):
         handle("findall", wprog2, U.F('q', U.V(0)))
         # ---- structural recursion
         rng = ctx.sub_rng("struct")
-        for _ in range(ctx.budget(120, 800)):
+        for _ in range(ctx.budget(120, 2500)):
             prog, q = U.gen_struct_program(rng)
             if rng.random() < 0.3:
                 nv = max(U.term_vars(q) + [-1]) + 1
@@ -454,7 +454,7 @@ def run(ctx):
     if not ctx.replay_in:
         rng = ctx.sub_rng("tabled")
         tcases = []
-        for _ in range(ctx.budget(150, 1000)):
+        for _ in range(ctx.budget(150, 3000)):
             prog, queries = U.gen_tabled_program(rng)
             try:
                 model = U.bottom_up(prog)
@@ -523,7 +523,7 @@ def run(ctx):
     # ---- ClauseIndex.find: real vs spec vs Lean model
     rng = ctx.sub_rng("index")
     if index_cases is None:
-        index_cases = [U.gen_index_case(rng) for _ in range(ctx.budget(400, 4000))]
+        index_cases = [U.gen_index_case(rng) for _ in range(ctx.budget(400, 10000))]
         index_cases.append((2, [(U.V(0), '1'), ('a', '2'), ('b', '3'), (U.V(0), '4')], [('a', U.V(1)), ('a', U.V(1)), ('b', U.V(0))]))
     idx_fail = None
     idx_diff = None
